@@ -5172,7 +5172,7 @@ func readOfficialHeader(buf []byte) (size uint32, containerTyper func(index uint
 		pos += 4
 	} else if cookie&0x0000FFFF == serialCookie {
 		haveRuns = true
-		size = uint32(uint16(cookie>>16) + 1) // number of containers
+		size = uint32(uint16(cookie>>16)) + 1 // number of containers
 
 		// create is-run-container bitmap
 		isRunBitmapSize := (int(size) + 7) / 8
